@@ -51,7 +51,8 @@ def execute(scn, devs, bindir, scratch, expect=None):
             return idx
 
         sch = Scheduler(str(root), sockpath, str(proj.p / ".redo" / "locks"), scn.get("visible", DEFAULT_VISIBLE), chooser,
-                        max_steps=scn.get("max_steps", 3000), poll_at=scn.get("poll_at"))
+                        max_steps=scn.get("max_steps", 3000), poll_at=scn.get("poll_at"),
+                        kill_roots=scn.get("kill_roots", ()), max_kills=scn.get("max_kills", 1))
         env = dict(proj.env)
         env["REDO_VERIF_SOCK"] = sockpath
         verdict = None
